@@ -8,6 +8,7 @@
            append-style encoder [encode_spec] that links the two and is not trusted). *)
 From SV Require Import Model.Common Model.Msgpack Model.Unescape Model.Serializer
      Spec.MsgpackSpec Spec.SerializerSpec Proofs.UnescapeProofs Proofs.SerializerProofs Proofs.SerializerOverflow.
+From SV Require Model.GoSem Gen.C10Gen Proofs.C10GenEquiv.
 Open Scope N_scope.
 
 (* VerifyConfig implies the hypothesis [chains_ok] used below (every configured rewriter chain passes
@@ -324,3 +325,82 @@ Theorem C10_example_oversize :
     decode_all (encode_spec ex_schema ex_cfg ex_rec) = Some (event_tree ex_schema ex_cfg ex_rec, []).
 Proof. exact example_oversize_lemma. Qed.
 Print Assumptions C10_example_oversize.
+
+(* ---- The tie to the SOURCE: Gen/C10Gen.v is regenerated by tools/go2coq from output/fastmsgpack/*.go on every
+   check.  The Go encoders write through their buffer argument and return the end position; the generated function
+   returns (end, final buffer).  For every buffer, position and value it is the model's result ([enc_inj]: the same
+   bytes, the same end; an index / slice-bounds panic exactly where the model panics).  A change of behaviour of an
+   encoder (a code byte, a shift, a length cast, an offset) changes the generated term and breaks the proof. ---- *)
+Theorem C10_generated_Write2_agrees :
+  forall (buf : bytes) (start : nat) (n : N), C10Gen.Write2 buf (Z.of_nat start) n = C10GenEquiv.enc_inj (write2 buf start n).
+Proof. exact C10GenEquiv.Write2_gen_eq. Qed.
+Print Assumptions C10_generated_Write2_agrees.
+
+Theorem C10_generated_Write4_agrees :
+  forall (buf : bytes) (start : nat) (n : N), C10Gen.Write4 buf (Z.of_nat start) n = C10GenEquiv.enc_inj (write4 buf start n).
+Proof. exact C10GenEquiv.Write4_gen_eq. Qed.
+Print Assumptions C10_generated_Write4_agrees.
+
+Theorem C10_generated_EncodeStringLen4_agrees :
+  forall (buf : bytes) (start len : nat), C10Gen.EncodeStringLen4 buf (Z.of_nat start) (Z.of_nat len) = C10GenEquiv.enc_inj (encode_string_len4 buf start len).
+Proof. exact C10GenEquiv.EncodeStringLen4_gen_eq. Qed.
+Print Assumptions C10_generated_EncodeStringLen4_agrees.
+
+Theorem C10_generated_EncodeStringLen16_agrees :
+  forall (buf : bytes) (start len : nat), C10Gen.EncodeStringLen16 buf (Z.of_nat start) (Z.of_nat len) = C10GenEquiv.enc_inj (encode_string_len16 buf start len).
+Proof. exact C10GenEquiv.EncodeStringLen16_gen_eq. Qed.
+Print Assumptions C10_generated_EncodeStringLen16_agrees.
+
+Theorem C10_generated_EncodeStringLen32_agrees :
+  forall (buf : bytes) (start len : nat), C10Gen.EncodeStringLen32 buf (Z.of_nat start) (Z.of_nat len) = C10GenEquiv.enc_inj (encode_string_len32 buf start len).
+Proof. exact C10GenEquiv.EncodeStringLen32_gen_eq. Qed.
+Print Assumptions C10_generated_EncodeStringLen32_agrees.
+
+Theorem C10_generated_EncodeMapLen4_agrees :
+  forall (buf : bytes) (start len : nat), C10Gen.EncodeMapLen4 buf (Z.of_nat start) (Z.of_nat len) = C10GenEquiv.enc_inj (encode_map_len4 buf start len).
+Proof. exact C10GenEquiv.EncodeMapLen4_gen_eq. Qed.
+Print Assumptions C10_generated_EncodeMapLen4_agrees.
+
+Theorem C10_generated_EncodeMapLen16_agrees :
+  forall (buf : bytes) (start len : nat), C10Gen.EncodeMapLen16 buf (Z.of_nat start) (Z.of_nat len) = C10GenEquiv.enc_inj (encode_map_len16 buf start len).
+Proof. exact C10GenEquiv.EncodeMapLen16_gen_eq. Qed.
+Print Assumptions C10_generated_EncodeMapLen16_agrees.
+
+Theorem C10_generated_EncodeArrayLen4_agrees :
+  forall (buf : bytes) (start len : nat), C10Gen.EncodeArrayLen4 buf (Z.of_nat start) (Z.of_nat len) = C10GenEquiv.enc_inj (encode_array_len4 buf start len).
+Proof. exact C10GenEquiv.EncodeArrayLen4_gen_eq. Qed.
+Print Assumptions C10_generated_EncodeArrayLen4_agrees.
+
+Theorem C10_generated_EncodeExtHeader8_agrees :
+  forall (buf : bytes) (start : nat) (ty : N), C10Gen.EncodeExtHeader8 buf (Z.of_nat start) ty = C10GenEquiv.enc_inj (encode_ext_header8 buf start ty).
+Proof. exact C10GenEquiv.EncodeExtHeader8_gen_eq. Qed.
+Print Assumptions C10_generated_EncodeExtHeader8_agrees.
+
+Theorem C10_generated_EncodeString4_agrees :
+  forall (buf : bytes) (start : nat) (str : bytes), C10Gen.EncodeString4 buf (Z.of_nat start) str = C10GenEquiv.enc_inj (encode_string4 buf start str).
+Proof. exact C10GenEquiv.EncodeString4_gen_eq. Qed.
+Print Assumptions C10_generated_EncodeString4_agrees.
+
+Theorem C10_generated_EncodeString16_agrees :
+  forall (buf : bytes) (start : nat) (str : bytes), C10Gen.EncodeString16 buf (Z.of_nat start) str = C10GenEquiv.enc_inj (encode_string16 buf start str).
+Proof. exact C10GenEquiv.EncodeString16_gen_eq. Qed.
+Print Assumptions C10_generated_EncodeString16_agrees.
+
+Theorem C10_generated_EncodeString32_agrees :
+  forall (buf : bytes) (start : nat) (str : bytes), C10Gen.EncodeString32 buf (Z.of_nat start) str = C10GenEquiv.enc_inj (encode_string32 buf start str).
+Proof. exact C10GenEquiv.EncodeString32_gen_eq. Qed.
+Print Assumptions C10_generated_EncodeString32_agrees.
+
+(* ... hence the string header of every length class, as written by the GENERATED code: the code byte and the
+   big-endian length at the position, nothing else in the buffer touched, the end 1 / 3 / 5 bytes further. *)
+Theorem C10_generated_string_headers :
+  forall (pre : bytes) (x a b c d : N) (tail : bytes) (len : nat),
+  ((N.of_nat len < 16)%N ->
+   C10Gen.EncodeStringLen4 (pre ++ x :: tail) (GoSem.go_len pre) (Z.of_nat len) =
+   GoSem.GOk ((GoSem.go_len pre + 1)%Z, pre ++ (160 + N.of_nat len)%N :: tail)) /\
+  C10Gen.EncodeStringLen16 (pre ++ x :: a :: b :: tail) (GoSem.go_len pre) (Z.of_nat len) =
+   GoSem.GOk ((GoSem.go_len pre + 3)%Z, pre ++ 218%N :: be16 (N.of_nat len mod 65536)%N ++ tail) /\
+  C10Gen.EncodeStringLen32 (pre ++ x :: a :: b :: c :: d :: tail) (GoSem.go_len pre) (Z.of_nat len) =
+   GoSem.GOk ((GoSem.go_len pre + 5)%Z, pre ++ 219%N :: be32 (N.of_nat len mod 4294967296)%N ++ tail).
+Proof. exact C10GenEquiv.string_headers_gen. Qed.
+Print Assumptions C10_generated_string_headers.
